@@ -50,7 +50,14 @@ const FIELD_TYPES: [&str; 16] = ["i32", "String", "u8", "f32", "bool", "Vec<u8>"
 const ERR_TYPES: [&str; 3] = ["String", "anyhow::Error", "MyErr"];
 const VARIANT_NAMES: [&str; 8] = ["Ok", "NotFound", "Pending", "Done", "Left", "Right", "Empty", "Full"];
 
-const BUNDLES: [&[&str]; 16] = [
+const BUNDLES: [&[&str]; 22] = [
+    // a single kind: the counterpart is looked at by exactly one of the per-kind passes
+    &["from_owned"],
+    &["owned_into"],
+    &["ref_into"],
+    &["from_ref"],
+    &["owned_into_existing"],
+    &["try_from_owned"],
     &["map"],
     &["from"],
     &["into"],
@@ -136,8 +143,34 @@ fn counterparts(rng: &mut Rng, n: usize) -> Vec<String> {
         v.push(format!("Many{}", k));
         k += 1;
     }
+    if v.len() >= 2 && rng.chance(1, 10) {
+        // a family of near-duplicates: names that differ only in zero padding, case, a trailing
+        // underscore, a common prefix, a raw-identifier prefix -- what a "natural" comparator,
+        // a case-folding table or a normaliser would confuse
+        let fam = near_duplicates(rng);
+        for (i, c) in v.iter_mut().enumerate() {
+            if i < fam.len() {
+                *c = fam[i].clone();
+            }
+        }
+    }
     v.dedup();
     v
+}
+
+pub fn near_duplicates(rng: &mut Rng) -> Vec<String> {
+    let base = *rng.pick(&["T", "Dto", "Entity", "Rec"]);
+    let n = rng.below(100);
+    let mut fam = match rng.below(6) {
+        0 => vec![format!("{}{}", base, n), format!("{}0{}", base, n), format!("{}00{}", base, n), format!("{}{}0", base, n)],
+        1 => vec![format!("{}x", base), format!("{}X", base), base.to_uppercase(), base.to_lowercase()],
+        2 => vec![base.to_string(), format!("{}_", base), format!("{}__", base), format!("_{}", base)],
+        3 => vec![format!("{}A", base), format!("{}AB", base), format!("{}ABC", base), format!("{}B", base)],
+        4 => vec![format!("m::{}", base), format!("m ::{}", base), format!("::m::{}", base), format!("m::m::{}", base)],
+        _ => vec![format!("{}{}", base, n), format!("{}{}", base, n + 1), format!("{}{}", base, n * 10), format!("{}{}", base, n + 10)],
+    };
+    rng.shuffle(&mut fam);
+    fam
 }
 
 fn pick_distinct<'a>(rng: &mut Rng, pool: &[&'a str], n: usize) -> Vec<&'a str> {
@@ -851,7 +884,7 @@ pub fn gen_enum(rng: &mut Rng, class: Class) -> Item {
 /// Catalogue of documented misuses; each adds one or two attributes to a (usually valid)
 /// item.  Every entry leads to a *different* message of validate.rs / attr.rs, so k
 /// injections put ~k keys into the `errors` container.
-pub const N_MISUSES: usize = 52;
+pub const N_MISUSES: usize = 54;
 
 pub fn inject_misuse(rng: &mut Rng, item: &mut Item, which: usize) -> &'static str {
     let cp0 = first_counterpart(item).unwrap_or_else(|| "EntityDto".to_string());
@@ -921,6 +954,22 @@ pub fn inject_misuse(rng: &mut Rng, item: &mut Item, which: usize) -> &'static s
         },
         15 => ty!("type:fallible-without-error", format!("{}(Unfall{})", rng.pick(&["try_map", "try_from", "try_into", "owned_try_into"]), rng.below(3))),
         16 => ty!("type:infallible-with-error", format!("{}(WithErr{}, String)", rng.pick(&["map", "from", "into", "ref_into"]), rng.below(3))),
+        17 | 18 | 19 if rng.chance(1, 4) => {
+            // the same family of instructions dedicated to several unknown types whose names are
+            // near-duplicates of each other
+            let fam = near_duplicates(rng);
+            let k = rng.range(2, fam.len());
+            for f in fam.iter().take(k) {
+                let body = match which % 3 {
+                    0 => format!("#[where_clause({}| T: Clone)]", f),
+                    1 => format!("#[ghosts({}| a: {{ 1 }})]", f),
+                    _ => format!("#[child_parents({}| p: P)]", f),
+                };
+                let pos = rng.below(item.type_attrs.len() as u64 + 1) as usize;
+                item.type_attrs.insert(pos, body);
+            }
+            "type:near-duplicate-unknown-types"
+        },
         17 => ty!("type:ghosts-unknown-type", format!("ghosts(Unknown{}| a: {{ 1 }})", rng.below(4))),
         18 => ty!("type:where-unknown-type", format!("where_clause(Unknown{}| T: Clone)", rng.below(4))),
         19 => ty!("type:child_parents-unknown-type", format!("child_parents(Unknown{}| p: P)", rng.below(4))),
@@ -988,6 +1037,28 @@ pub fn inject_misuse(rng: &mut Rng, item: &mut Item, which: usize) -> &'static s
         47 => ty!("syntax:child_parents-no-type", "child_parents(a)".to_string()),
         48 => ty!("syntax:empty-where", "where_clause()".to_string()),
         49 => ty!("syntax:param-twice", format!("into({}| vars(a: {{ 1 }}), vars(b: {{ 2 }}))", cp0)),
+        // ---- #[name = "Value"] forms of instruction names (own parse path per back-end)
+        52 => {
+            let k = rng.range(1, 3);
+            let names = pick_distinct(rng, &["from_owned", "owned_into", "map", "ghosts", "where_clause", "child_parents", "into_existing", "try_map"], k);
+            for n in names {
+                let pos = rng.below(item.type_attrs.len() as u64 + 1) as usize;
+                item.type_attrs.insert(pos, format!("#[{} = \"{}\"]", n, rng.pick(&["Foo", "Value", ""])));
+            }
+            "type:name-value-attrs"
+        },
+        53 => {
+            if nm == 0 {
+                item.type_attrs.push("#[map = \"x\"]".into());
+            } else {
+                let k = rng.range(1, 3);
+                let names = pick_distinct(rng, &["map", "from", "ghost", "child", "parent", "literal", "as_type"], k);
+                for n in names {
+                    item.members[mi].attrs.push(format!("#[{} = \"v\"]", n));
+                }
+            }
+            "member:name-value-attrs"
+        },
         // ---- allow_unknown: silences the 'misplaced / misnamed' class
         50 => {
             let pos = rng.below(item.type_attrs.len() as u64 + 1) as usize;
